@@ -88,7 +88,21 @@ def transformations(g, shape, n, kind, cx=False):
     return isometries(g, shape, n)
 
 
-def mk(kind, g, shape, n, cx=False):
+SCALABLE = ("point", "pair", "segment", "geodesic", "polygon", "tangent", "subspace", "horosphere")
+
+
+def mk(kind, g, shape, n, cx=False, scale=None):
+    """an object of the class; `scale` (probability): every unit gets its own homogeneous factor between 1e-12 and 1e12"""
+    X = _mk(kind, g, shape, n, cx)
+    if scale and not cx and kind in SCALABLE and g.random() < scale:
+        f = unit_scale(g, tuple(shape)).reshape(tuple(shape) + (1,) * X.unit_ndims)
+        if g.random() < 0.5:
+            f = -f
+        X = type(X)(np.array(X.proj_data) * f)
+    return X
+
+
+def _mk(kind, g, shape, n, cx=False):
     shape = tuple(shape)
     if cx:
         def cdat(extra):
@@ -234,6 +248,151 @@ def judge_bad(inp, obs, lr):
     return None
 
 
+# ------------------------------------------------------------------ generic defences (G1-G4): fresh-object differential, output isolation
+def unit_scale(g, shape, lo=-40, hi=40):
+    """one homogeneous factor per unit, 2**k with 1e-12 <~ 2**k <~ 1e12 (powers of two keep exactly null rows exactly null)"""
+    return np.ldexp(1.0, g.integers(lo, hi + 1, size=tuple(shape))).astype(float)
+
+
+def query_set(kind, obj, n):
+    """read-only queries of an object as (name, thunk, comparison); thunks return an array or a tuple of arrays.
+    comparison: 'val' (numerically equal), 'proj' (rows equal as projective points), 'pos' (rows equal up to positive scalars)"""
+    qs = []
+    hyp = isinstance(obj, H.HyperbolicObject)
+    if kind == "point" and hyp:
+        qs += [("coords:" + m, (lambda m=m: obj.coords(m)), "val" if m not in ("projective", "hyperboloid") else "proj") for m in MODELS]
+    elif kind == "pair" and hyp:
+        qs += [("endpoint_coords", lambda: obj.endpoint_coords("klein"), "val"), ("get_endpoints", lambda: obj.get_endpoints().proj_data, "proj")]
+    elif kind == "segment":
+        qs += [("ideal_endpoint_coords", lambda: obj.ideal_endpoint_coords("klein"), "val"), ("endpoint_coords", lambda: obj.endpoint_coords("klein"), "val"),
+               ("geodesic", lambda: obj.geodesic().proj_data, "proj"), ("ideal_basis", lambda: obj.ideal_basis, "proj")]
+        if n == 2:
+            qs.append(("circle_parameters", lambda: obj.circle_parameters(model="poincare"), "circle"))
+    elif kind == "geodesic":
+        qs += [("ideal_basis_coords", lambda: obj.ideal_basis_coords("klein"), "val")]
+        if n == 2:
+            qs.append(("circle_parameters", lambda: obj.circle_parameters(model="poincare"), "circle"))
+    elif kind == "polygon" and hyp:
+        qs += [("get_edges", lambda: obj.get_edges().proj_data, "proj"), ("get_vertices", lambda: obj.get_vertices().proj_data, "proj"),
+               ("edges_ideal", lambda: obj.get_edges().ideal_endpoint_coords("klein"), "val"), ("edges_shape", lambda: np.array(obj.get_edges().shape), "val")]
+        if n == 2:
+            qs.append(("edge_circles", lambda: obj.get_edges().circle_parameters(model="poincare"), "circle"))
+    elif kind in ("polygon", "ppolygon"):
+        qs += [("get_edges", lambda: obj.get_edges().proj_data, "proj"), ("get_vertices", lambda: obj.get_vertices().proj_data, "proj")]
+    elif kind == "tangent":
+        qs += [("vector", lambda: np.array(obj.vector), "pos"), ("point", lambda: np.array(obj.point), "proj"),
+               ("normalized", lambda: obj.normalized().aux_data, "pos"), ("origin_to", lambda: obj.origin_to().matrix, "val"),
+               ("point_along", lambda: obj.point_along(0.5).proj_data, "proj"), ("vector_again", lambda: np.array(obj.vector), "pos")]
+    elif kind == "horosphere":
+        qs += [("sphere_parameters", lambda: obj.sphere_parameters(model="poincare"), "val"), ("center_coords", lambda: obj.center_coords("klein"), "val")]
+    elif kind == "subspace" and hyp:
+        qs += [("ideal_basis_coords", lambda: obj.ideal_basis_coords("klein"), "val"), ("sphere_parameters", lambda: obj.sphere_parameters(model="poincare"), "val")]
+    elif kind == "hyperplane":
+        qs += [("spacelike_vector", lambda: np.array(obj.spacelike_vector), "proj"), ("ideal_basis", lambda: np.array(obj.ideal_basis), "proj")]
+    elif kind == "transformation":
+        qs += [("inv", lambda: obj.inv().matrix, "val")]
+        if isinstance(obj, H.Isometry) and n == 2:
+            qs += [("fixed_point_pair", lambda: obj.fixed_point_pair().proj_data, "proj"), ("fixed_point", lambda: obj.fixed_point().proj_data, "proj"),
+                   ("axis", lambda: obj.axis().proj_data, "proj")]
+    elif kind == "simplex":
+        qs += [("skeleton", lambda: obj.skeleton(2).proj_data, "proj"), ("vertices", lambda: obj.vertices().proj_data, "proj")]
+    return qs
+
+
+def _run_q(f):
+    with np.errstate(all="ignore"):
+        try:
+            r = f()
+        except Exception as e:
+            return ("exc", type(e).__name__)
+    return r if isinstance(r, tuple) else (r,)
+
+
+def _cmp_q(a, b, how, tol):
+    ea = len(a) == 2 and isinstance(a[0], str) and a[0] == "exc"
+    eb = len(b) == 2 and isinstance(b[0], str) and b[0] == "exc"
+    if ea or eb:
+        return ea and eb and a[1] == b[1]
+    if len(a) != len(b):
+        return False
+    for pos, (x, y) in enumerate(zip(a, b)):
+        x, y = np.asarray(x), np.asarray(y)
+        if x.shape != y.shape:
+            return False
+        if x.size == 0:
+            continue
+        if how == "circle":
+            # a geodesic through the origin is a "circle" of infinite radius: centre, radius and angles are then meaningless on both sides
+            ra, rb = np.real(np.asarray(a[1], dtype=complex)), np.real(np.asarray(b[1], dtype=complex))
+            deg = ~np.isfinite(ra) | ~np.isfinite(rb) | (np.abs(ra) > 1e6) | (np.abs(rb) > 1e6)
+            if np.any(deg):
+                keep = ~deg
+                x = x[keep] if x.shape[:keep.ndim] == keep.shape else x
+                y = y[keep] if y.shape[:keep.ndim] == keep.shape else y
+                if x.size == 0:
+                    continue
+            if pos == 2:            # angles in degrees: equal modulo a full turn
+                xr, yr = np.deg2rad(np.real(x)), np.deg2rad(np.real(y))
+                ux, uy = np.stack([np.cos(xr), np.sin(xr)], -1), np.stack([np.cos(yr), np.sin(yr)], -1)
+                if ux.ndim >= 2 and ux.shape[-2] == 2:
+                    # the two end angles of each arc, as a pair (which one comes first is decided by a comparison that ties for half circles)
+                    ux2, uy2 = ux.reshape(-1, 2, 2), uy.reshape(-1, 2, 2)
+                    for p_, q_ in zip(ux2, uy2):
+                        if not (same_val(p_, q_, 1e-6) or same_val(p_, q_[::-1], 1e-6)):
+                            return False
+                elif not same_val(ux, uy, 1e-6):
+                    return False
+            elif not same_val(np.real(x), np.real(y), tol):
+                return False
+            continue
+        if how == "val" or x.ndim == 0:
+            ok = same_val(np.real(x), np.real(y), tol) and same_val(np.imag(x), np.imag(y), tol)
+        elif not (np.all(np.isfinite(x)) and np.all(np.isfinite(y))):
+            ok = same_val(np.real(x), np.real(y), tol)
+        elif how == "proj":
+            ok = rows_proj_eq(x, y, tol)
+        else:
+            from props._hist import rows_pos_eq
+            ok = rows_pos_eq(x, y, tol)
+        if not ok:
+            return False
+    return True
+
+
+def fresh_diff(kind, obj, n, tol=1e-6, mutate=False):
+    """G1: every query on an object with a history equals the same query on a FRESH object built from its current primary data.
+    G2 (mutate=True): the arrays/objects a query hands out are then overwritten in place and the queries are run again.
+    returns None or the name of the first query that differs"""
+    if np.iscomplexobj(obj.proj_data) and isinstance(obj, H.HyperbolicObject):
+        return None
+    for rnd in range(2 if mutate else 1):
+        with np.errstate(all="ignore"):
+            fr = type(obj)(np.array(obj.proj_data))
+        handed = []
+        for (name, f, how), (_, f2, _) in zip(query_set(kind, obj, n), query_set(kind, fr, n)):
+            a, b = _run_q(f), _run_q(f2)
+            if not _cmp_q(a, b, how, tol):
+                return name + (" (after overwriting the arrays returned by earlier queries)" if rnd else "")
+            handed += [x for x in a if isinstance(x, np.ndarray)]
+        if mutate and rnd == 0:
+            own = [obj.proj_data] + ([obj.aux_data] if obj.aux_data is not None else [])
+            for x in handed:
+                if x.flags.writeable and not any(x is o or (x.base is not None and np.shares_memory(x, o)) for o in own):
+                    try:
+                        x[...] = 0
+                    except Exception:
+                        pass
+            for acc in ("get_edges", "get_vertices", "get_endpoints"):
+                if hasattr(obj, acc):
+                    try:
+                        d = getattr(obj, acc)()
+                        if not any(np.shares_memory(d.proj_data, o) for o in own):
+                            d.proj_data[...] = 0
+                    except Exception:
+                        pass
+    return None
+
+
 # ------------------------------------------------------------------ C04 oracles
 def gen_points(rng, n):
     for c in range(n):
@@ -370,16 +529,27 @@ def gen_apply(rng, n):
         else:
             ts = rng.choice(SHAPES[:8])
         yield {"op": "apply", "mode": mode, "kind": kind, "cx": cx, "xshape": xs, "tshape": ts, "n": rng.choice([2, 2, 3]),
-               "seed": rng.randrange(10 ** 9), "raw": True}
+               "seed": rng.randrange(10 ** 9), "raw": True, "prequery": c % 2 == 0}
 
 
 def run_apply(inp):
     g = G(inp["seed"])
     kind, n, cx, mode = inp["kind"], inp["n"], inp["cx"], inp["mode"]
-    X = mk(kind, g, inp["xshape"], n, cx)
+    X = mk(kind, g, inp["xshape"], n, cx, scale=0.3)
     T = transformations(g, inp["tshape"], n, kind, cx)
     xs, ts = tuple(X.shape), tuple(T.shape)
     bad = []
+    if inp.get("prequery") and not cx:
+        # the object (and the transformation) have been looked at before: whatever they remember must not travel onto the image
+        for _, f, _ in query_set(kind, X, n) + query_set("transformation", T, n):
+            _run_q(f)
+        Rq = T.apply(X, broadcast=mode)
+        for who, o, k in (("image", Rq, kind), ("original", X, kind), ("transformation", T, "transformation")):
+            why = fresh_diff(k, o, n, 1e-6, mutate=True)
+            if why:
+                bad.append({"what": "differs_from_fresh_object", "object": who, "query": why,
+                            "expected": "a query on an object with a history = the same query on a fresh object with the same primary data"})
+                return {"bad": bad}
     if inp.get("raw") and kind == "point":
         # the same call on a plain array of row vectors (apply wraps the result in a generic object)
         Rr = T.apply(np.array(X.proj_data), broadcast=mode)
@@ -399,6 +569,12 @@ def run_apply(inp):
         exp = ts + xs
     if tuple(R.shape) != exp:
         bad.append({"what": "shape", "got": list(R.shape), "expected": list(exp)})
+        return {"bad": bad}
+    if R.aux_data is not None and tuple(np.asarray(R.aux_data).shape[:len(exp)]) != exp:
+        bad.append({"what": "aux_shape", "got": list(np.asarray(R.aux_data).shape), "expected_outer": list(exp)})
+        return {"bad": bad}
+    if R.aux_data is not None and np.asarray(R.aux_data).ndim != len(exp) + X.aux_ndims:
+        bad.append({"what": "aux_shape", "got": list(np.asarray(R.aux_data).shape), "expected_outer": list(exp)})
         return {"bad": bad}
     Tcls = type(T)
     for idx in np.ndindex(*exp):
@@ -422,7 +598,7 @@ def run_apply(inp):
 
 def gen_construct(rng, n):
     ops = ["segment", "polygon", "tangent", "pair", "circle_segment", "circle_geodesic", "circle_polygon", "horosphere",
-           "fixed_points", "sl2", "ideal_endpoints", "tangent_ops"]
+           "fixed_points", "sl2", "ideal_endpoints", "tangent_ops", "dtype_mix", "derived_then_original"]
     for c in range(n):
         op = ops[c % len(ops)]
         yield {"op": op, "shape": rng.choice(SHAPES), "n": 2 if op.startswith("circle") or op in ("sl2", "fixed_points") else rng.choice([2, 3]),
@@ -489,6 +665,23 @@ def run_construct(inp):
                 bad.append({"what": "tangent", "idx": list(idx)})
                 break
         if op == "tangent_ops" and not bad:
+            # base points given by representatives of either sign and any scale; the queries one after another on ONE object
+            pr = np.concatenate([np.ones(shape + (1,)), k], axis=-1) * (unit_scale(g, shape, -20, 20) * g.choice([-1.0, 1.0], shape))[..., None]
+            TH = H.TangentVector(np.stack([pr, v], axis=-2))
+            TH.origin_to()
+            TH.point_along(0.3)
+            TH.normalized()
+            why = fresh_diff("tangent", TH, n, 1e-6)
+            if why:
+                bad.append({"what": "tangent_after_queries_differs_from_fresh", "query": why})
+            for idx in np.ndindex(*shape):
+                if bad:
+                    break
+                U = H.TangentVector(np.stack([pr[idx], v[idx]], axis=-2))
+                from props._hist import rows_pos_eq
+                if not rows_pos_eq(np.array(TH.vector)[idx], np.array(U.vector), 1e-7) or \
+                        not rows_pos_eq(TH.normalized().aux_data[idx], U.normalized().aux_data, 1e-7):
+                    bad.append({"what": "tangent_unit_after_queries", "idx": list(idx), "expected": "unit idx of the queried composite = fresh unit (same direction)"})
             TV = H.TangentVector(H.Point(k.copy(), model="klein"), v.copy())
             TW = H.TangentVector(H.Point(k.copy(), model="klein"), v2.copy())
             nrm = fresh(TV).normalized()
@@ -548,6 +741,13 @@ def run_construct(inp):
         T = isometries(g, shape, 2)
         L = H.Isometry.standard_loxodromic(2, float(g.uniform(1.5, 3.0)))
         X = H.Isometry(utils.matrix_product(utils.matrix_product(utils.invert(T.proj_data), L.proj_data), T.proj_data))
+        D = T @ X
+        Fl = X.flatten_to_unit()
+        for o in (D, Fl, X):            # the derived objects are asked first
+            why = fresh_diff("transformation", o, 2, 1e-6)
+            if why:
+                bad.append({"what": "fixed_points_differ_from_fresh_object", "query": why})
+                break
         fp = X.fixed_point_pair()
         f1 = X.fixed_point()
         ax = X.axis()
@@ -565,6 +765,60 @@ def run_construct(inp):
                 if not rows_proj_eq(ax.proj_data[idx], U.axis().proj_data, 1e-6):
                     bad.append({"what": "axis", "idx": list(idx)})
                     break
+    elif op == "dtype_mix":
+        # G4: the same object from parts of different dtypes, in every order, against the all-float64 construction
+        ka, kb = klein(g, shape, n), klein(g, shape, n)
+        A = np.concatenate([np.full(shape + (1,), 4.0), np.round(ka * 4)], axis=-1)        # integral coordinates, interior
+        B = np.concatenate([np.ones(shape + (1,)), kb], axis=-1) * 1.37
+        v = np.round(g.normal(size=shape + (n + 1,)) * 3) + np.eye(n + 1)[1]
+        dts = [np.int64, np.float64, np.float32, np.int32]
+        for cls, second in ((H.Segment, B), (H.PointPair, B), (H.TangentVector, None)):
+            for d1, d2 in ((np.int64, np.float64), (np.float64, np.int64), (np.int32, np.float32), (np.float32, np.float64), (np.int64, np.int64)):
+                try:
+                    if cls is H.TangentVector:
+                        first, sec = B if d1 != np.int64 and d1 != np.int32 else A, v + 0.25 * (d2 in (np.float64, np.float32))
+                        obj = cls(H.Point(first.astype(d1)), sec.astype(d2))
+                        ref = cls(H.Point(first.astype(d1).astype(float)), sec.astype(d2).astype(float))
+                    else:
+                        obj = cls(H.Point(A.astype(d1)), H.Point(second.astype(d2)))
+                        ref = cls(H.Point(A.astype(d1).astype(float)), H.Point(second.astype(d2).astype(float)))
+                except Exception as e:
+                    bad.append({"what": "dtype_mix_raised", "cls": cls.__name__, "dtypes": [np.dtype(d1).name, np.dtype(d2).name], "exc": type(e).__name__})
+                    continue
+                tol = 1e-5 if np.float32 in (d1, d2) else 1e-9
+                if not allclose(np.asarray(obj.proj_data, dtype=float), np.asarray(ref.proj_data, dtype=float), tol) or \
+                        (ref.aux_data is not None and np.all(np.isfinite(ref.aux_data)) and
+                         not aux_proj_eq({"Segment": "segment", "TangentVector": "tangent"}.get(cls.__name__, "pair"), obj.aux_data, ref.aux_data, max(tol, 1e-6))):
+                    bad.append({"what": "dtype_mix", "cls": cls.__name__, "dtypes": [np.dtype(d1).name, np.dtype(d2).name],
+                                "expected": "parts of different dtypes give the object of the widest dtype (nothing truncated)"})
+                    break
+        # stacking units of different dtypes, both orders
+        if not bad:
+            u1, u2 = H.Point(A.astype(np.int64)), H.Point(B)
+            for order in ((u1, u2), (u2, u1)):
+                S = H.Point(list(order))
+                want = np.stack([np.asarray(o.proj_data, dtype=float) for o in order])
+                if not allclose(np.asarray(S.proj_data, dtype=float), want, 1e-12):
+                    bad.append({"what": "dtype_mix_stack", "expected": "stacking int and float units keeps the float coordinates"})
+                    break
+    elif op == "derived_then_original":
+        # G1/G3: derive an object, look at the DERIVED one first, then at the original (and the other way round): both answer as fresh objects do
+        kind = ["transformation", "polygon", "segment", "tangent"][int(g.integers(0, 4))]
+        X = mk(kind, g, shape, 2 if kind == "transformation" else n)
+        nn = 2 if kind == "transformation" else n
+        T = isometries(g, (), nn)
+        for first in ("derived", "original"):
+            ders = [("apply", T @ X), ("flatten", X.flatten_to_unit())] + ([("reshape", X.reshape(shape[::-1]))] if shape else [])
+            if kind == "transformation":
+                ders.append(("compose", X @ T))
+            order = ([(nm, D) for nm, D in ders] + [("original", X)]) if first == "derived" else ([("original", X)] + ders)
+            for nm, D in order:
+                why = fresh_diff(kind, D, nn, 1e-6)
+                if why:
+                    bad.append({"what": "differs_from_fresh_object", "object": nm, "looked_at_first": first, "query": why, "kind": kind})
+                    break
+            if bad:
+                break
     elif op == "sl2":
         A = g.normal(size=shape + (2, 2))
         det = A[..., 0, 0] * A[..., 1, 1] - A[..., 0, 1] * A[..., 1, 0]
@@ -597,7 +851,7 @@ def gen_struct(rng, n):
 def run_struct(inp):
     g = G(inp["seed"])
     kind, n, cx, shape = inp["kind"], inp["n"], inp["cx"], tuple(inp["shape"])
-    X = mk(kind, g, shape, n, cx)
+    X = mk(kind, g, shape, n, cx, scale=0.3)
     bad = []
     pd = np.array(X.proj_data)
     ad = None if X.aux_data is None else np.array(X.aux_data)
@@ -686,6 +940,10 @@ def run_struct(inp):
             if ad is not None and not aux_proj_eq(kind, np.asarray(X.aux_data), fresh(X).aux_data, 1e-7):
                 bad.append({"what": "original_aux_stale_after_editing_derived", "derived": name})
                 break
+        if not bad:
+            why = fresh_diff(kind, X, n, 1e-6, mutate=True)
+            if why:
+                bad.append({"what": "original_differs_from_fresh_after_derived_objects", "query": why})
         if circ0 is not None and not bad:
             circ1 = [np.array(c) for c in fresh(X).circle_parameters()]
             if not all(same_val(a, b, 1e-7) for a, b in zip(circ0, circ1)):
